@@ -167,11 +167,24 @@ def build_composition(kind, seed):
         if pick == 1:
             return Pipeline([("p", GaussianRandomProjection(n_components=2, random_state=rs)), ("m", LogisticRegression())]), "clf", "dense"
         return RandomForestClassifier(n_estimators=3, max_depth=2, random_state=rs), "clf", "dense"
+    if kind == "grid_search_structured":
+        # searches over tuple- and dict-valued hyper-parameters: cv_results_['param_*'] are object arrays of tuples / dicts
+        from sklearn.model_selection import RandomizedSearchCV
+        grid = {"s__feature_range": [(0, 1), (0, int(rng.randint(2, 5))), (-1, 1)], "m__class_weight": [None, {0: 1, 1: 2, 2: 1}, "balanced"]}
+        pipe = Pipeline([("s", MinMaxScaler()), ("m", LogisticRegression())])
+        if rng.randint(2):
+            return GridSearchCV(pipe, grid, cv=2), "clf", "dense"
+        return RandomizedSearchCV(pipe, grid, n_iter=4, cv=2, random_state=int(rng.randint(100))), "clf", "dense"
+    if kind == "sparse_svm":
+        # libsvm keeps dual_coef_ of a multi-class fit on SPARSE data as a CSR matrix with explicitly stored zeros
+        from sklearn.svm import NuSVC
+        est = [SVC(kernel=str(rng.choice(["rbf", "linear"])), C=float(rng.choice([0.5, 1.0]))), NuSVC(nu=0.3)][rng.randint(2)]
+        return est, "clf", "sparse"
     raise ValueError(kind)
 
 
 COMPOSITIONS = ["pipeline", "column_transformer", "feature_union", "grid_search", "voting", "stacking", "bagging", "function_transformer",
-                "class_weight_dict", "scipy_ufunc_transformer", "random_state_instance"]
+                "class_weight_dict", "scipy_ufunc_transformer", "random_state_instance", "grid_search_structured", "sparse_svm"]
 
 
 def try_fit(est, tags, data_kind, seed):
